@@ -1067,3 +1067,58 @@ def rule_reprepare_invalidates_cache(check, rule):
                                 'a method bound before this point keeps advertising the previous signature' % (fi.name, recv, recv, cache), key=key,
                                 witness="x = A(); x.m; annotate(a=int)(A.__dict__['m']); signature(x.m) must show a: int like signature(A().m)")
     check.floor(rule, 're-preparation sites', n_sites, 1)
+
+
+def rule_kwopos_index(check, rule):
+    """C12.R1k: `__call__` puts the value of every converted keyword-only parameter back at the position recorded for it, counting in the
+    *wrapped function's own parameter list*.  Whatever shape `_prepare` takes, the index it records next to such a parameter must
+    therefore be the running index over all parameters of the forged signature -- not an index into a filtered or classified
+    sub-list (the regular parameters only), which is off by the number of positional-only parameters in front."""
+    repo = check.repo
+    fi = repo.func(PT + '._prepare')
+    check.analysed(fi)
+    it = Interp(repo, Policy())
+    paths = it.run(fi)
+    check.absorb(it)
+    selft = ('P', fi.params()[0][0])
+    n = 0
+    seen = set()
+    for p in paths:
+        # the list published as self.kwopos
+        pos_lists = set(e.args[0] for e in p.effects if e.kind == 'store_attr' and e.op == 'kwopos' and e.target == selft and e.args)
+        pos_lists |= set(v for (b, a), v in getattr(p, 'heap', {}).items() if b == selft and a == 'kwopos') if hasattr(p, 'heap') else set()
+        for e, g in walk_effects(p.effects):
+            if e.kind != 'loop':
+                continue
+            for sp in e.sub:
+                for x in sp.effects:
+                    if not (x.kind == 'mut' and x.op == 'append' and x.args and x.args[0][0] == 'T' and len(x.args[0][1]) == 2):
+                        continue
+                    tgt = x.target
+                    if pos_lists and tgt not in pos_lists and not (tgt[0] == 'A' and tgt[2] == 'kwopos'):
+                        continue
+                    idx = x.args[0][1][0]
+                    key = '_prepare|kwopos-index'
+                    if key in seen:
+                        continue
+                    seen.add(key)
+                    n += 1
+                    st = site_of(fi, x.node)
+                    src = e.target
+                    over = src[2][0] if (src[0] == 'C' and src[1] == 'enumerate' and src[2]) else None
+                    if idx == ('IDX', e.ctx) and over is not None:
+                        txt = show(over)
+                        full = 'parameters' in txt and not any(s[0] == 'C' and isinstance(s[1], str) and s[1].endswith(':sort_params') for s in subterms(over)) \
+                            and not any(s[0] in ('G', 'SL') for s in subterms(over))
+                        if full:
+                            check.holds(rule, st, 'the recorded position is the running index over every parameter of the forged signature', key=key)
+                        else:
+                            check.violation(rule, st, 'the position recorded for a converted keyword-only parameter counts in %s, not in the wrapped '
+                                            'function\'s whole parameter list: with positional-only parameters in front, __call__ re-inserts the value '
+                                            'too far left' % txt[:80], key=key,
+                                            witness="kwoargs('verbose') on def connect(host, /, port, verbose): connect('h', 1, verbose=True)")
+                    elif idx[0] == 'V':
+                        check.holds(rule, st, 'the recorded position is a hand-kept counter (judged by the table rule)', key=key, nontrivial=False)
+                    else:
+                        check.inconclusive(rule, st, 'recorded position not understood: %s' % show(idx)[:60], key=key)
+    check.floor(rule, 'position records of converted keyword-only parameters', n, 1)
